@@ -192,7 +192,7 @@ CHECKS = {
     "C07": dict(
         test="TestC07",
         quick=dict(procs=8, checks=60, timeout=900),
-        thorough=dict(procs=32, checks=700, timeout=3000),
+        thorough=dict(procs=32, checks=350, timeout=3000),
         rule="rapid draws a pool of 6-16 types chosen to share scratch state (a base struct nested by pointer, by value in two map types of the same Go type, in a list; two types with the same required ids incl. id 64; holders; curated mutually recursive and defaulted named types; order shuffled so types are first used on their own or nested) "
              "and a history of 6-24 calls: size/encode (by value or pointer, sufficient or short buffer), decode (well-formed, fresh or pre-filled destination), decodebad (truncated or corrupted inside a container), calls on an invalid definition; "
              "non-trivial = a failed call followed by a successful one; distinct by hash(history, pool)",
